@@ -7,6 +7,7 @@ import BiotiteModel.Proofs.C08Trace
 import BiotiteModel.Proofs.C08Local
 import BiotiteModel.Proofs.C08LookupLocal
 import BiotiteModel.Proofs.C08TraceAff
+import BiotiteModel.Proofs.C08AffAssemble
 import BiotiteModel.Gen.C08
 /-!
 # C08 — property theorems (optimal pairwise alignment returns the true optimum)
@@ -626,6 +627,130 @@ theorem C08_traces_count_aff (mode : Mode) (M : Mat) (go ge : Int) (a b : Seq) (
   exact ⟨by omega, List.length_take_le _ _⟩
 
 
+/-! ## Affine traceback: local mode, distinctness, lookup; the headline statements -/
+
+
+/-- Affine, local mode, assembled over all start cells (every cell whose match table holds the maximum): every
+returned alignment is a valid local alignment without abutting gaps whose public score is `optAff .local`; at most
+`max_number` are returned; the non-empty ones are pairwise distinct. -/
+theorem C08_traces_local_aff (M : Mat) (go ge : Int) (a b : Seq) (mx : Nat) :
+    (∀ aln ∈ tracesAff .local M go ge a b (affRec .local M go ge a b).val mx,
+      ValidLocal a b aln ∧ NoAbut aln ∧ score .local (.aff go ge) M a b aln = optAff .local M go ge a b) ∧
+    (tracesAff .local M go ge a b (affRec .local M go ge a b).val mx).length ≤ mx ∧
+    ((tracesAff .local M go ge a b (affRec .local M go ge a b).val mx).filter (fun x => !x.isEmpty)).Nodup := by
+  refine ⟨?_, List.length_take_le _ _, ?_⟩
+  · intro aln h
+    obtain ⟨s, hs, hx⟩ := List.mem_flatMap.mp (List.mem_of_mem_take h)
+    obtain ⟨hk, hi, hj, hv⟩ := startsAff_local_mem M go ge a b s hs
+    obtain ⟨p, k⟩ := s
+    simp only at hk hi hj hv; subst hk
+    obtain ⟨p0, hw, hna, hsc⟩ := followAff_local_good M go ge a b mx _ 1 p _ hv aln hx
+    refine ⟨⟨p0.1, p0.2, p.1, p.2, hw, hi, hj⟩, by unfold NoAbut; rw [noAbutB_eq]; exact hna, ?_⟩
+    rw [score_aff_eq_pos .local (by decide) M go ge a b aln p0, hsc]
+  · apply List.Nodup.sublist (List.Sublist.filter _ (List.take_sublist _ _))
+    apply flatMap_filter_nodup (fun x => (endKeyLast x, Kind.m)) _ _ (startsAff_nodup _ _ _ _)
+    · intro s hs
+      exact followAff_nodup .local M go ge a b mx _ 1 s [] (startsAff_real .local M go ge a b s hs)
+    · intro s hs x hx hne
+      obtain ⟨hk, p0, hw⟩ := followAff_lastKind .local M go ge a b mx _ 1 s (startsAff_real .local M go ge a b s hs) x hx
+      obtain ⟨hm, _⟩ := startsAff_local_mem M go ge a b s hs
+      have := endKeyLast_spec x p0 s.1 .m hw hne (by rw [hk, hm])
+      obtain ⟨p, k⟩ := s
+      simp only at hm this; subst hm; rw [this]
+
+/-- Affine, global / semi-global: the returned alignments are pairwise distinct (different state paths through
+the three tables spell different column lists: the state of a node is the kind of the column that enters it). -/
+theorem C08_traces_distinct_aff (mode : Mode) (hm : mode ≠ .local) (M : Mat) (go ge : Int) (a b : Seq) (mx : Nat) :
+    (tracesAff mode M go ge a b (affRec mode M go ge a b).val mx).Nodup := by
+  apply List.Nodup.sublist (List.take_sublist _ _)
+  apply flatMap_nodup_key (fun x => ((a.length, b.length), lastKind .m x)) _ _ (startsAff_nodup _ _ _ _)
+  · intro s hs
+    exact followAff_nodup mode M go ge a b mx _ 1 s [] (startsAff_real mode M go ge a b s hs)
+  · intro s hs x hx
+    obtain ⟨hk, _⟩ := followAff_lastKind mode M go ge a b mx _ 1 s (startsAff_real mode M go ge a b s hs) x hx
+    obtain ⟨h1, _⟩ := startsAff_mem mode hm _ _ _ s hs
+    obtain ⟨p, k⟩ := s
+    simp only at h1 hk; subst h1; rw [hk]
+
+/-- what the driver runs for affine penalties (`followG` over a lookup into `fillAff`) is the model over the
+recurrence the theorems speak about. -/
+theorem C08_traces_lookup_aff (mode : Mode) (M : Mat) (go ge : Int) (a b : Seq) (mx : Nat) :
+    tracesAff mode M go ge a b (affLookup (fillAff mode M go ge a b)) mx =
+      tracesAff mode M go ge a b (affRec mode M go ge a b).val mx :=
+  tracesAff_lookup mode M go ge a b mx
+
+/-! ## The property as one statement per gap kind -/
+
+/-- LINEAR gap penalty `g ≤ 0`, any matrix, any two sequences, any mode, `max_number ≥ 1`.  For the model of
+`align_optimal` (table fill, start selection, traceback, truncation): the reported score is the maximum of the
+public `align.score` over all valid alignments of the mode (upper bound + attained), every returned alignment is
+valid and scores it, the non-empty returned alignments are pairwise distinct, at most `max_number` are returned, and
+at least one is. -/
+theorem C08_align_optimal_lin (mode : Mode) (M : Mat) (g : Int) (hg : g ≤ 0) (a b : Seq) (mx : Nat) (hmx : 1 ≤ mx) :
+    (∀ aln, Valid mode a b aln → score mode (.lin g) M a b aln ≤ (alignOptimalModel mode (.lin g) M a b mx).1) ∧
+    (∃ aln, Valid mode a b aln ∧ score mode (.lin g) M a b aln = (alignOptimalModel mode (.lin g) M a b mx).1) ∧
+    (∀ t ∈ (alignOptimalModel mode (.lin g) M a b mx).2,
+      Valid mode a b t ∧ score mode (.lin g) M a b t = (alignOptimalModel mode (.lin g) M a b mx).1) ∧
+    (((alignOptimalModel mode (.lin g) M a b mx).2).filter (fun x => !x.isEmpty)).Nodup ∧
+    (alignOptimalModel mode (.lin g) M a b mx).2.length ≤ mx ∧
+    (alignOptimalModel mode (.lin g) M a b mx).2 ≠ [] := by
+  have hsc : (alignOptimalModel mode (.lin g) M a b mx).1 = opt mode M g a b := C08_reported_lin mode M g a b
+  rw [hsc]
+  refine ⟨fun aln h => C08_upper_pub_lin mode M g hg a b aln h, C08_attained_pub_lin mode M g a b, ?_⟩
+  cases mode with
+  | global =>
+    have e : (alignOptimalModel .global (.lin g) M a b mx).2 = tracesLin .global M g a b (linRec .global M g a b).val mx :=
+      (C08_traces_lookup .global M g a b mx).1
+    rw [e]
+    exact ⟨fun t ht => C08_traces_valid .global (by decide) M g a b mx t ht,
+      List.Nodup.sublist List.filter_sublist (C08_traces_distinct .global M g a b _ mx),
+      List.length_take_le _ _, C08_traces_nonempty .global M g a b mx hmx⟩
+  | semi =>
+    have e : (alignOptimalModel .semi (.lin g) M a b mx).2 = tracesLin .semi M g a b (linRec .semi M g a b).val mx :=
+      (C08_traces_lookup .semi M g a b mx).1
+    rw [e]
+    exact ⟨fun t ht => C08_traces_valid .semi (by decide) M g a b mx t ht,
+      List.Nodup.sublist List.filter_sublist (C08_traces_distinct .semi M g a b _ mx),
+      List.length_take_le _ _, C08_traces_nonempty .semi M g a b mx hmx⟩
+  | «local» =>
+    have e : (alignOptimalModel .local (.lin g) M a b mx).2 = tracesLocalLin M g a b (linRec .local M g a b).val mx :=
+      (C08_traces_lookup .local M g a b mx).2
+    rw [e]
+    obtain ⟨h1, h2, h3, h4⟩ := C08_traces_local M g a b mx
+    exact ⟨h1, h3 hg, h2, h4 hmx⟩
+
+/-- AFFINE gap penalty `open ≤ 0`, `ext ≤ 0` (incl. `open < ext` and zeros), any matrix, any two sequences, any
+mode.  For the model of `align_optimal`: the reported score is the maximum of the public `align.score` over all valid
+alignments of the mode in which a gap in one sequence never directly abuts a gap in the other (free terminal gaps
+included), every returned alignment is such an alignment and scores it, the non-empty returned alignments are
+pairwise distinct and at most `max_number` are returned. -/
+theorem C08_align_optimal_aff (mode : Mode) (M : Mat) (go ge : Int) (hgo : go ≤ 0) (hge : ge ≤ 0) (a b : Seq)
+    (mx : Nat) :
+    (∀ aln, Valid mode a b aln → NoAbut aln →
+      score mode (.aff go ge) M a b aln ≤ (alignOptimalModel mode (.aff go ge) M a b mx).1) ∧
+    (∃ aln, Valid mode a b aln ∧ NoAbut aln ∧
+      score mode (.aff go ge) M a b aln = (alignOptimalModel mode (.aff go ge) M a b mx).1) ∧
+    (∀ t ∈ (alignOptimalModel mode (.aff go ge) M a b mx).2, Valid mode a b t ∧ NoAbut t ∧
+      score mode (.aff go ge) M a b t = (alignOptimalModel mode (.aff go ge) M a b mx).1) ∧
+    (((alignOptimalModel mode (.aff go ge) M a b mx).2).filter (fun x => !x.isEmpty)).Nodup ∧
+    (alignOptimalModel mode (.aff go ge) M a b mx).2.length ≤ mx := by
+  have hsc : (alignOptimalModel mode (.aff go ge) M a b mx).1 = optAff mode M go ge a b :=
+    C08_reported_aff mode M go ge a b
+  have e : (alignOptimalModel mode (.aff go ge) M a b mx).2 = tracesAff mode M go ge a b (affRec mode M go ge a b).val mx :=
+    C08_traces_lookup_aff mode M go ge a b mx
+  rw [hsc, e]
+  refine ⟨fun aln h hn => C08_upper_pub_aff mode M go ge hgo hge a b aln h hn, C08_attained_pub_aff mode M go ge a b,
+    ?_, ?_, List.length_take_le _ _⟩
+  · cases mode with
+    | global => exact fun t ht => C08_traces_valid_aff .global (by decide) M go ge a b mx t ht
+    | semi => exact fun t ht => C08_traces_valid_aff .semi (by decide) M go ge a b mx t ht
+    | «local» => exact (C08_traces_local_aff M go ge a b mx).1
+  · cases mode with
+    | global => exact List.Nodup.sublist List.filter_sublist (C08_traces_distinct_aff .global (by decide) M go ge a b mx)
+    | semi => exact List.Nodup.sublist List.filter_sublist (C08_traces_distinct_aff .semi (by decide) M go ge a b mx)
+    | «local» => exact (C08_traces_local_aff M go ge a b mx).2.2
+
+
 /-- Known finding, as modelled: affine + not local + an empty sequence raises IndexError. -/
 theorem C08_affine_empty_defect : raisesIndexError .global (.aff (-2) (-1)) [0, 0] [] = true := by decide
 
@@ -685,5 +810,12 @@ example : tracesLocalLin (Mat.ofRows [[2]]) (-1) [0] [0] (linRec .local (Mat.ofR
 /-- affine traceback model on a concrete input: one optimal trace, `A-`/`AC`-style -/
 example : tracesAff .global (Mat.ofRows [[1, -1], [-1, 1]]) (-3) (-1) [0, 1] [1]
     (affRec .global (Mat.ofRows [[1, -1], [-1, 1]]) (-3) (-1) [0, 1] [1]).val 5 = [[.gapB 0, .both 1 0]] := by decide
+/-- the whole model on concrete inputs: reported score and returned alignments -/
+example : alignOptimalModel .global (.lin 0) (Mat.ofRows [[1]]) [0, 0] [0] 5
+    = (1, [[.both 0 0, .gapB 1], [.gapB 0, .both 1 0]]) := by decide
+example : alignOptimalModel .local (.aff (-3) (-1)) (Mat.ofRows [[1, -1], [-1, 1]]) [0, 1] [1] 5
+    = (1, [[.both 1 0]]) := by decide
+example : alignOptimalModel .semi (.aff (-3) (-1)) (Mat.ofRows [[1, -1], [-1, 1]]) [0, 1] [1] 5
+    = (1, [[.gapB 0, .both 1 0]]) := by decide
 
 end BiotiteModel.C08
